@@ -13,8 +13,11 @@
          -> every Comment token starts with '%', and no name in the skip list
          contains '%';
      (4) the environment name is the string of the first argument of
-         \begin / \end -> that argument is a "flat" group without Comment
-         token (name_flat).
+         \begin / \end -> if a group opens right after that name (one spacer
+         allowed in between) it holds only leaf tokens, none of them a
+         Comment, up to its first closer (name_flat).  Sufficient, not
+         necessary: a name group with nested commands/groups/math but no
+         comment is excluded although harmless.
    Without (4) the statement is false: see C10_unrestricted_refuted. *)
 From Coq Require Import List NArith ZArith Bool Lia.
 From TexModel Require Import Base Tables Chars Tokenizer Tree Reader.
@@ -85,12 +88,11 @@ Fixpoint flat (k : groupkind) (toks : list token) : bool :=
 Definition flat_open (c : token) (toks : list token) : bool :=
   match group_kind_of_begin (tcat c) with Some k => flat k toks | None => true end.
 
-(* what follows the name of \begin / \end: [spacer] then a flat group, or a
-   token that is not a Comment *)
+(* what follows the name of \begin / \end: after an optional spacer, IF the
+   next token opens a group THEN that group is flat *)
 Definition name_flat (toks : list token) : bool :=
   match snd (read_spacer toks) with
-  | c :: r => if is_tc TGroupBegin c || is_tc TBracketBegin c then flat_open c r
-              else negb (is_tc TComment c)
+  | c :: r => flat_open c r
   | [] => true
   end.
 
@@ -384,11 +386,17 @@ Definition Rexpr (toks1 : list token) (e1 e2 : expr) (s1 : list token) : Prop :=
   (forall t r, toks1 = t :: r -> is_leaf t = true -> estr e1 = estr e2 /\ s1 = r).
 Definition Rexpr0 (e1 e2 : expr) (_ : list token) : Prop := expr_sim e1 e2.
 Definition Rlist (l1 l2 : list expr) (_ : list token) : Prop := Forall2 expr_sim l1 l2.
-Definition Rcmd (v1 v2 : str * list expr) (_ : list token) : Prop :=
+Definition Rcmd (nreq : Z) (v1 v2 : str * list expr) (_ : list token) : Prop :=
   fst v1 = fst v2 /\ Forall2 expr_sim (snd v1) (snd v2) /\
-  (str_eqb (fst v1) s_begin || str_eqb (fst v1) s_end = true -> fa (snd v1) = fa (snd v2)).
-Definition Rargs (toks1 : list token) (a1 a2 : list expr) (_ : list token) : Prop :=
-  Forall2 expr_sim a1 a2 /\ (name_flat toks1 = true -> fa a1 = fa a2).
+  ((nreq <= 0)%Z -> str_eqb (fst v1) s_begin || str_eqb (fst v1) s_end = true ->
+   fa (snd v1) = fa (snd v2)).
+Definition Rargs (nreq : Z) (toks1 : list token) (a1 a2 : list expr) (_ : list token) : Prop :=
+  Forall2 expr_sim a1 a2 /\ ((nreq <= 0)%Z -> name_flat toks1 = true -> fa a1 = fa a2).
+(* read_arg_required: a bare token becomes an argument only when nreq > 0 *)
+Definition Rreq (nreq : Z) (acc1 acc2 : list expr) (toks1 : list token) (v1 v2 : list expr * Z)
+           (s1 : list token) : Prop :=
+  Forall2 expr_sim (fst v1) (fst v2) /\ snd v1 = snd v2 /\ (snd v1 <= nreq)%Z /\
+  ((acc1 = [] -> (nreq <= 0)%Z) -> pre_fa acc1 acc2 toks1 -> pre_fa (fst v1) (fst v2) s1).
 Definition Ropt (acc1 acc2 : list expr) (toks1 : list token) (v1 v2 : list expr * Z)
            (s1 : list token) : Prop :=
   Forall2 expr_sim (fst v1) (fst v2) /\ snd v1 = snd v2 /\
@@ -416,4 +424,713 @@ Proof.
   simpl. split; [|apply gp_skipn; exact Hs].
   unfold Rexpr0. destruct Ht0 as (_ & Hp & _). rewrite Hp.
   constructor; [exact Ha|]. constructor; [constructor | constructor].
+Qed.
+
+(* ------------------------------------------------ the mutual induction *)
+
+Definition P_expr f := forall skip strict m l1 l2,
+  skip_ok skip = true -> gp l1 l2 ->
+  rrel (Rexpr l1) (read_expr f skip strict m l1) (read_expr f skip strict m l2).
+Definition P_item f := forall acc1 acc2 l1 l2,
+  Forall2 expr_sim acc1 acc2 -> gp l1 l2 ->
+  rrel Rlist (read_item_loop f acc1 l1) (read_item_loop f acc2 l2).
+Definition P_math f := forall k pos strict acc1 acc2 l1 l2,
+  Forall2 expr_sim acc1 acc2 -> gp l1 l2 ->
+  rrel Rexpr0 (read_math_loop f k pos strict acc1 l1) (read_math_loop f k pos strict acc2 l2).
+Definition P_env f := forall name args1 args2 pos skip strict m acc1 acc2 l1 l2,
+  skip_ok skip = true -> Forall2 expr_sim args1 args2 -> Forall2 expr_sim acc1 acc2 -> gp l1 l2 ->
+  rrel Rexpr0 (read_env_loop f name args1 pos skip strict m acc1 l1)
+              (read_env_loop f name args2 pos skip strict m acc2 l2).
+Definition P_command f := forall nreq nopt sk strict m l1 l2,
+  gp l1 l2 -> cmd_ok (skipn sk l1) = true ->
+  rrel (Rcmd nreq) (read_command f nreq nopt sk strict m l1) (read_command f nreq nopt sk strict m l2).
+Definition P_args f := forall nreq nopt strict m l1 l2,
+  gp l1 l2 ->
+  rrel (Rargs nreq l1) (read_args f nreq nopt strict m l1) (read_args f nreq nopt strict m l2).
+Definition P_opt f := forall acc1 acc2 nopt strict m l1 l2,
+  Forall2 expr_sim acc1 acc2 -> gp l1 l2 ->
+  rrel (Ropt acc1 acc2 l1) (read_arg_optional f acc1 nopt strict m l1)
+                           (read_arg_optional f acc2 nopt strict m l2).
+Definition P_req f := forall acc1 acc2 nreq strict m l1 l2,
+  Forall2 expr_sim acc1 acc2 -> gp l1 l2 ->
+  rrel (Rreq nreq acc1 acc2 l1) (read_arg_required f acc1 nreq strict m l1)
+                           (read_arg_required f acc2 nreq strict m l2).
+Definition P_arg f := forall c1 c2 strict m l1 l2,
+  tok_sim c1 c2 -> gp l1 l2 ->
+  rrel (Rarg c1 l1) (read_arg f c1 strict m l1) (read_arg f c2 strict m l2).
+Definition P_argloop f := forall k pos strict m acc1 acc2 l1 l2,
+  Forall2 expr_sim acc1 acc2 -> gp l1 l2 ->
+  rrel (Rargloop k acc1 acc2 l1) (read_arg_loop f k pos strict m acc1 l1)
+                                 (read_arg_loop f k pos strict m acc2 l2).
+
+Definition P_all f :=
+  P_expr f /\ P_item f /\ P_math f /\ P_env f /\ P_command f /\ P_args f /\
+  P_opt f /\ P_req f /\ P_arg f /\ P_argloop f.
+
+Lemma read_expr_leaf f skip strict m t src :
+  is_leaf t = true -> read_expr (S f) skip strict m (t :: src) = Ok (EText t, src).
+Proof.
+  unfold is_leaf. intro H.
+  apply andb_true_iff in H. destruct H as [H Hm].
+  apply andb_true_iff in H. destruct H as [H Hg].
+  apply andb_true_iff in H. destruct H as [_ He].
+  apply negb_true_iff in He. apply negb_true_iff in Hg.
+  simpl. destruct (math_kind_of_begin (tcat t)); [discriminate|]. rewrite He, Hg. reflexivity.
+Qed.
+
+Lemma estr_list_snoc l e : estr_list (l ++ [e]) = estr_list l ++ estr e.
+Proof. unfold estr_list. rewrite map_app, concat_app. simpl. rewrite app_nil_r. reflexivity. Qed.
+
+Lemma begin_end_signature n :
+  str_eqb n s_begin || str_eqb n s_end = true -> signature_of n = ((-1)%Z, (-1)%Z).
+Proof.
+  intro H. apply orb_true_iff in H. destruct H as [H|H]; apply str_eqb_eq in H; subst;
+    vm_compute; reflexivity.
+Qed.
+
+Lemma P_all_holds : forall f, P_all f.
+Proof.
+  induction f as [|f IH].
+  { unfold P_all, P_expr, P_item, P_math, P_env, P_command, P_args, P_opt, P_req, P_arg, P_argloop.
+    repeat match goal with |- _ /\ _ => split end; intros; simpl; reflexivity. }
+  destruct IH as (IHe & IHi & IHm & IHv & IHc & IHa & IHo & IHr & IHg & IHl).
+  unfold P_all.
+  repeat match goal with |- _ /\ _ => split end;
+    [unfold P_expr | unfold P_item | unfold P_math | unfold P_env | unfold P_command | unfold P_args
+     | unfold P_opt | unfold P_req | unfold P_arg | unfold P_argloop].
+  10: {
+    intros k pos strict m acc1 acc2 l1 l2 Hacc Hgp. simpl.
+    destruct (gp_inv _ _ Hgp) as [[-> ->]|(t1 & r1 & t2 & r2 & -> & -> & Ht & Hr)].
+    - destruct strict; simpl; [reflexivity|]. split; [|exact gp_nil].
+      split; [constructor; exact Hacc | intros _ He; exact He].
+    - rewrite (is_group_end_sim k _ _ Ht). destruct (is_group_end k t2) eqn:Ee.
+      + simpl. split; [|exact Hr]. split; [constructor; exact Hacc | intros _ He; exact He].
+      + eapply rrel_bind; [apply IHe; [reflexivity | exact Hgp]|].
+        intros v1 s1 v2 s2 [Hv Hleaf] Hg. cbn beta iota.
+        eapply rrel_weaken; [apply IHl; [apply F2_snoc; eassumption | exact Hg]|].
+        intros e1 e2 s [He Hs]. split; [exact He|]. intros Hfl Hacc'.
+        simpl in Hfl. rewrite (is_group_end_sim k _ _ Ht), Ee in Hfl.
+        apply andb_true_iff in Hfl. destruct Hfl as [Hl1 Hfl].
+        destruct (Hleaf t1 r1 eq_refl Hl1) as [Hes ->].
+        apply Hs; [exact Hfl|]. rewrite !estr_list_snoc, Hacc', Hes. reflexivity. }
+  9: {
+    intros c1 c2 strict m l1 l2 Hc Hgp. simpl.
+    destruct Hc as (Hcat & Hpos & Htx). rewrite Hcat, Hpos.
+    destruct (group_kind_of_begin (tcat c2)) as [k|] eqn:Ek; [|reflexivity].
+    eapply rrel_weaken; [apply IHl; [constructor | exact Hgp]|].
+    intros e1 e2 s [He Hs]. split; [exact He|]. intro Hfl. apply Hs; [|reflexivity].
+    unfold flat_open in Hfl. rewrite Hcat, Ek in Hfl. exact Hfl. }
+  8: {
+    intros acc1 acc2 nreq strict m l1 l2 Hacc Hgp. simpl.
+    assert (Hsame : rrel (Rreq nreq acc1 acc2 l1) (Ok ((acc1, nreq), l1)) (Ok ((acc2, nreq), l2))).
+    { simpl. split; [|exact Hgp]. split; [exact Hacc|]. split; [reflexivity|]. split; [cbn [fst snd]; lia | auto]. }
+    destruct (nreq =? 0)%Z; [apply Hsame|].
+    destruct (gp_inv _ _ Hgp) as [[-> ->]|(t1 & r1 & t2 & r2 & -> & -> & Ht & Hr)]; [apply Hsame|].
+    destruct (gp_spacer _ _ Hgp) as [_ Hsp].
+    destruct (read_spacer (t1 :: r1)) as [b1 s1] eqn:E1.
+    destruct (read_spacer (t2 :: r2)) as [b2 s2] eqn:E2.
+    simpl in Hsp.
+    destruct (gp_inv _ _ Hsp) as [[-> ->]|(c1 & q1 & c2 & q2 & -> & -> & Hc & Hq)]; [apply Hsame|].
+    assert (Hcons : forall x : expr, acc1 ++ [x] = [] -> (nreq - 1 <= 0)%Z).
+    { intros x Habs. destruct acc1; discriminate Habs. }
+    rewrite (is_tc_sim TGroupBegin _ _ Hc). destruct (is_tc TGroupBegin c2) eqn:Eg.
+    - eapply rrel_bind; [apply IHg; [exact Hc | exact Hq]|].
+      intros g1 u1 g2 u2 [Hg Hflat] Hu. cbn beta iota.
+      eapply rrel_weaken; [apply IHr; [apply F2_snoc; eassumption | exact Hu]|].
+      intros [a1 n1] [a2 n2] s (Ha & Hn & Hle & Hpre). unfold Rreq. cbn [fst snd] in *.
+      split; [exact Ha|]. split; [exact Hn|]. split; [lia|].
+      intros Hguard Hp. apply Hpre; [apply Hcons|].
+      apply pre_fa_snoc with (toks1 := t1 :: r1); [exact Hacc | exact Hp|].
+      intros _ Hnf. apply Hflat. unfold name_flat in Hnf. rewrite E1 in Hnf. exact Hnf.
+    - destruct (0 <? nreq)%Z eqn:E0; [|apply Hsame]. apply Z.ltb_lt in E0.
+      rewrite (is_tc_sim TEscape _ _ Hc). destruct (is_tc TEscape c2) eqn:Ee.
+      + eapply rrel_bind; [apply IHc; [exact Hq | ]|].
+        { change (skipn 0 q1) with q1. eapply ok_side_escape; [apply Hsp |].
+          rewrite (is_tc_sim TEscape _ _ Hc). exact Ee. }
+        intros [n1 a1] u1 [n2 a2] u2 (Hn & _ & _) Hu. cbn [fst snd] in Hn. subst n2. cbn beta iota.
+        destruct Hc as (_ & Hpos & _). rewrite Hpos.
+        eapply rrel_weaken;
+          [apply IHr; [apply F2_snoc; [exact Hacc | constructor; constructor] | exact Hu]|].
+        intros [a1' n1'] [a2' n2'] s (Ha & Hn & Hle & Hpre). unfold Rreq. cbn [fst snd] in *.
+        split; [exact Ha|]. split; [exact Hn|]. split; [lia|].
+        intros Hguard Hp. apply Hpre; [apply Hcons|].
+        apply pre_fa_snoc with (toks1 := t1 :: r1); [exact Hacc | exact Hp|].
+        intros; reflexivity.
+      + eapply rrel_weaken;
+          [apply IHr; [apply F2_snoc; [exact Hacc | constructor; constructor; constructor] | exact Hq]|].
+        intros [a1' n1'] [a2' n2'] s (Ha & Hn & Hle & Hpre). unfold Rreq. cbn [fst snd] in *.
+        split; [exact Ha|]. split; [exact Hn|]. split; [lia|].
+        intros Hguard Hp. apply Hpre; [apply Hcons|].
+        apply pre_fa_snoc with (toks1 := t1 :: r1); [exact Hacc | exact Hp|].
+        intros Hnil _. specialize (Hguard Hnil). lia. }
+  7: {
+    intros acc1 acc2 nopt strict m l1 l2 Hacc Hgp. simpl.
+    assert (Hsame : forall n, rrel (Ropt acc1 acc2 l1) (Ok ((acc1, n), l1)) (Ok ((acc2, n), l2))).
+    { intro n. simpl. split; [|exact Hgp]. split; [exact Hacc|]. split; [reflexivity|]. auto. }
+    destruct (nopt =? 0)%Z; [apply Hsame|].
+    destruct (gp_spacer _ _ Hgp) as [_ Hsp].
+    destruct (read_spacer l1) as [b1 s1] eqn:E1.
+    destruct (read_spacer l2) as [b2 s2] eqn:E2.
+    simpl in Hsp.
+    destruct (gp_inv _ _ Hsp) as [[-> ->]|(c1 & q1 & c2 & q2 & -> & -> & Hc & Hq)]; [apply Hsame|].
+    rewrite (is_tc_sim TBracketBegin _ _ Hc). destruct (is_tc TBracketBegin c2) eqn:Eg; [|apply Hsame].
+    eapply rrel_bind; [apply IHg; [exact Hc | exact Hq]|].
+    intros g1 u1 g2 u2 [Hg Hflat] Hu. cbn beta iota.
+    eapply rrel_weaken; [apply IHo; [apply F2_snoc; eassumption | exact Hu]|].
+    intros [a1 n1] [a2 n2] s (Ha & Hn & Hpre). split; [exact Ha|]. split; [exact Hn|].
+    intro Hp. apply Hpre. apply pre_fa_snoc with (toks1 := l1); [exact Hacc | exact Hp|].
+    intros _ Hnf. apply Hflat. unfold name_flat in Hnf. rewrite E1 in Hnf. exact Hnf. }
+  6: {
+    intros nreq nopt strict m l1 l2 Hgp. simpl.
+    destruct ((nreq =? 0)%Z && (nopt =? 0)%Z).
+    { simpl. split; [|exact Hgp]. split; [constructor | reflexivity]. }
+    eapply rrel_bind; [apply IHo; [constructor | exact Hgp]|].
+    intros [a1 n1] s1 [a2 n2] s2 (Ha1 & Hn1 & Hp1) Hg1. cbn [fst snd] in Ha1, Hn1, Hp1. subst n2.
+    cbn beta iota.
+    eapply rrel_bind; [apply IHr; [exact Ha1 | exact Hg1]|].
+    intros [b1 m1] u1 [b2 m2] u2 (Ha2 & Hn2 & Hle2 & Hp2) Hg2. cbn [fst snd] in Ha2, Hn2, Hle2, Hp2.
+    subst m2. cbn beta iota.
+    eapply rrel_bind with (R := Ropt b1 b2 u1).
+    { destruct (gp_inv _ _ Hg2) as [[-> ->]|(t1 & r1 & t2 & r2 & -> & -> & Ht & Hr)].
+      - simpl. split; [|exact gp_nil]. split; [exact Ha2|]. split; [reflexivity | auto].
+      - rewrite (is_tc_sim TBracketBegin _ _ Ht). destruct (is_tc TBracketBegin t2).
+        + apply IHo; assumption.
+        + simpl. split; [|exact Hg2]. split; [exact Ha2|]. split; [reflexivity | auto]. }
+    intros [c1 k1] v1 [c2 k2] v2 (Ha3 & Hn3 & Hp3) Hg3. cbn [fst snd] in Ha3, Hn3, Hp3. subst k2.
+    cbn beta iota.
+    eapply rrel_bind with (R := Rreq m1 c1 c2 v1).
+    { destruct (gp_inv _ _ Hg3) as [[-> ->]|(t1 & r1 & t2 & r2 & -> & -> & Ht & Hr)].
+      - simpl. split; [|exact gp_nil]. split; [exact Ha3|]. split; [reflexivity|]. split; [cbn [fst snd]; lia | auto].
+      - rewrite (is_tc_sim TGroupBegin _ _ Ht). destruct (is_tc TGroupBegin t2).
+        + apply IHr; assumption.
+        + simpl. split; [|exact Hg3]. split; [exact Ha3|]. split; [reflexivity|]. split; [cbn [fst snd]; lia | auto]. }
+    intros [d1 j1] w1 [d2 j2] w2 (Ha4 & Hn4 & Hle4 & Hp4) Hg4. cbn [fst snd] in Ha4, Hn4, Hle4, Hp4.
+    cbn beta iota. simpl. split; [|exact Hg4]. split; [exact Ha4|].
+    intros Hnr Hnf. eapply pre_fa_fa; [exact Ha4|].
+    apply Hp4; [intros _; lia|]. apply Hp3, Hp2; [intros _; exact Hnr|]. apply Hp1. exact Hnf. }
+  5: {
+    intros nreq nopt sk strict m l1 l2 Hgp Hcmd. simpl.
+    rewrite (gp_length _ _ Hgp). destruct (length l2 <? sk)%nat; [reflexivity|].
+    pose proof (gp_skipn sk _ _ Hgp) as Hsk.
+    destruct (gp_inv _ _ Hsk) as [[E1 E2]|(n1 & r1 & n2 & r2 & E1 & E2 & Hn & Hr)]; rewrite E1, E2.
+    { simpl. split; [|exact gp_nil]. split; [reflexivity|]. split; [constructor | reflexivity]. }
+    rewrite E1 in Hcmd. unfold cmd_ok in Hcmd. apply andb_true_iff in Hcmd.
+    destruct Hcmd as [Hnc Hfl]. apply negb_true_iff in Hnc.
+    rewrite <- (text_of_noncomment _ _ Hn Hnc).
+    assert (Hnr : forall nr no,
+      (if (nreq <? 0)%Z && (nopt <? 0)%Z then signature_of (ttext n1) else (nreq, nopt)) = (nr, no) ->
+      (nreq <= 0)%Z -> str_eqb (ttext n1) s_begin || str_eqb (ttext n1) s_end = true -> (nr <= 0)%Z).
+    { intros nr no E Hle Hbe. destruct ((nreq <? 0)%Z && (nopt <? 0)%Z).
+      - rewrite (begin_end_signature _ Hbe) in E. inversion E. lia.
+      - inversion E; subst. exact Hle. }
+    destruct (if (nreq <? 0)%Z && (nopt <? 0)%Z then signature_of (ttext n1) else (nreq, nopt))
+      as [nr no].
+    specialize (Hnr nr no eq_refl).
+    eapply rrel_bind; [apply IHa; exact Hr|].
+    intros a1 s1 a2 s2 [Ha Hfa] Hs. cbn beta iota. simpl.
+    split; [|exact Hs]. split; [reflexivity|]. split; [exact Ha|].
+    cbn [fst snd]. intros Hle Hbe. rewrite Hbe in Hfl. apply Hfa; [apply Hnr; assumption | exact Hfl]. }
+  4: {
+    intros name args1 args2 pos skip strict m acc1 acc2 l1 l2 Hsk Hargs Hacc Hgp. simpl.
+    assert (Hstop : forall q1 q2, gp q1 q2 ->
+      rrel Rexpr0 (if strict then Err EOFError else Ok (ENamed name args1 acc1 pos, q1))
+                  (if strict then Err EOFError else Ok (ENamed name args2 acc2 pos, q2))).
+    { intros q1 q2 Hq. destruct strict; simpl; [reflexivity|]. split; [|exact Hq].
+      constructor; assumption. }
+    destruct (gp_inv _ _ Hgp) as [[-> ->]|(t1 & r1 & t2 & r2 & -> & -> & Ht & Hr)].
+    { apply Hstop. exact gp_nil. }
+    assert (Hstep : rrel Rexpr0
+      (bind (read_expr f skip strict m (t1 :: r1)) (fun '(e, src1) =>
+         read_env_loop f name args1 pos skip strict m (acc1 ++ [e]) src1))
+      (bind (read_expr f skip strict m (t2 :: r2)) (fun '(e, src1) =>
+         read_env_loop f name args2 pos skip strict m (acc2 ++ [e]) src1))).
+    { eapply rrel_bind; [apply IHe; assumption|].
+      intros e1 s1 e2 s2 [He _] Hs. cbn beta iota. apply IHv; try assumption.
+      apply F2_snoc; assumption. }
+    rewrite (is_tc_sim TEscape _ _ Ht). destruct (is_tc TEscape t2) eqn:Ee; [|exact Hstep].
+    eapply rrel_bind; [apply IHc; [exact Hgp|]|].
+    { change (skipn 1 (t1 :: r1)) with r1. eapply ok_side_escape; [apply Hgp|].
+      rewrite (is_tc_sim TEscape _ _ Ht). exact Ee. }
+    intros [n1 a1] s1 [n2 a2] s2 (Hn & Ha & Hfa) _. cbn [fst snd] in Hn, Ha, Hfa. subst n2.
+    cbn beta iota.
+    destruct (str_eqb n1 s_end) eqn:Een; [|exact Hstep].
+    assert (Hfa' : fa a1 = fa a2) by (apply Hfa; [lia | apply orb_true_r]).
+    clear Hfa. rename Hfa' into Hfa.
+    destruct Ha as [|x1 x2 y1 y2 Hx Hy]; [apply Hstop; exact Hgp|].
+    simpl in Hfa. injection Hfa as Hfa. rewrite Hfa.
+    destruct (negb (str_eqb (arg_string x2) name)); [apply Hstop; exact Hgp|].
+    pose proof (gp_spacer _ _ (gp_skipn 2 _ _ Hgp)) as [_ Hsp].
+    destruct (read_spacer (skipn 2 (t1 :: r1))) as [b1 u1].
+    destruct (read_spacer (skipn 2 (t2 :: r2))) as [b2 u2]. simpl in Hsp.
+    destruct (gp_inv _ _ Hsp) as [[-> ->]|(c1 & q1 & c2 & q2 & -> & -> & Hc & Hq)]; [reflexivity|].
+    eapply rrel_bind; [apply IHg; [exact Hc | exact Hq]|].
+    intros g1 w1 g2 w2 _ Hw. cbn beta iota. simpl. split; [|exact Hw]. constructor; assumption. }
+  3: {
+    intros k pos strict acc1 acc2 l1 l2 Hacc Hgp. simpl.
+    destruct (gp_inv _ _ Hgp) as [[-> ->]|(t1 & r1 & t2 & r2 & -> & -> & Ht & Hr)]; [reflexivity|].
+    rewrite (is_math_end_sim k _ _ Ht). destruct (is_math_end k t2).
+    - simpl. split; [|exact Hr]. constructor. exact Hacc.
+    - eapply rrel_bind; [apply IHe; [reflexivity | exact Hgp]|].
+      intros e1 s1 e2 s2 [He _] Hs. cbn beta iota. apply IHm; [|exact Hs].
+      apply F2_snoc; assumption. }
+  2: {
+    intros acc1 acc2 l1 l2 Hacc Hgp. simpl.
+    destruct (gp_inv _ _ Hgp) as [[-> ->]|(t1 & r1 & t2 & r2 & -> & -> & Ht & Hr)].
+    { simpl. split; [exact Hacc | exact gp_nil]. }
+    assert (Hstop : rrel Rlist (Ok (acc1, t1 :: r1)) (Ok (acc2, t2 :: r2))).
+    { simpl. split; [exact Hacc | exact Hgp]. }
+    assert (Hstep : rrel Rlist
+      (bind (read_expr f [] true MNonMath (t1 :: r1)) (fun '(e, src1) =>
+         read_item_loop f (acc1 ++ [e]) src1))
+      (bind (read_expr f [] true MNonMath (t2 :: r2)) (fun '(e, src1) =>
+         read_item_loop f (acc2 ++ [e]) src1))).
+    { eapply rrel_bind; [apply IHe; [reflexivity | exact Hgp]|].
+      intros e1 s1 e2 s2 [He _] Hs. cbn beta iota. apply IHi; [|exact Hs].
+      apply F2_snoc; assumption. }
+    rewrite (is_tc_sim TEscape _ _ Ht). destruct (is_tc TEscape t2) eqn:Ee.
+    - eapply rrel_bind; [apply IHc; [exact Hgp|]|].
+      { change (skipn 1 (t1 :: r1)) with r1. eapply ok_side_escape; [apply Hgp|].
+        rewrite (is_tc_sim TEscape _ _ Ht). exact Ee. }
+      intros [n1 a1] s1 [n2 a2] s2 (Hn & _ & _) _. simpl in Hn. subst n2. cbn beta iota.
+      destruct (str_eqb n1 s_end || str_eqb n1 s_item); [exact Hstop | exact Hstep].
+    - rewrite (is_tc_sim TGroupEnd _ _ Ht). destruct (is_tc TGroupEnd t2); [exact Hstop | exact Hstep]. }
+  intros skip strict m l1 l2 Hsk Hgp.
+  destruct (gp_inv _ _ Hgp) as [[-> ->]|(c1 & r1 & c2 & r2 & -> & -> & Hc & Hr)]; [simpl; reflexivity|].
+  destruct (is_leaf c1) eqn:Lf.
+  { pose proof Lf as Lf2. rewrite (is_leaf_sim _ _ Hc) in Lf2.
+    rewrite (read_expr_leaf _ _ _ _ _ _ Lf), (read_expr_leaf _ _ _ _ _ _ Lf2). simpl.
+    split; [|exact Hr]. split; [constructor; exact Hc|].
+    intros t r Heq _. inversion Heq; subst. split; [|reflexivity]. simpl.
+    apply text_of_noncomment; [exact Hc | apply leaf_not_comment; exact Lf]. }
+  apply rrel_weaken with (R := Rexpr0).
+  2: { intros e1 e2 s He. split; [exact He|]. intros t r Heq Hl. inversion Heq; subst. congruence. }
+  simpl. pose proof Hc as (Hcat & Hpos & _). rewrite Hcat, Hpos.
+  destruct (math_kind_of_begin (tcat c2)) as [k|].
+  { apply IHm; [constructor | exact Hr]. }
+  rewrite (is_tc_sim TEscape _ _ Hc). destruct (is_tc TEscape c2) eqn:Ee.
+  2: { rewrite (is_tc_sim TGroupBegin _ _ Hc). destruct (is_tc TGroupBegin c2).
+       - eapply rrel_weaken; [apply IHg; [exact Hc | exact Hr]|]. intros e1 e2 s [He _]; exact He.
+       - simpl. split; [|exact Hr]. constructor. exact Hc. }
+  eapply rrel_bind; [apply IHc; [exact Hr|]|].
+  { change (skipn 0 r1) with r1. eapply ok_side_escape; [apply Hgp|].
+    rewrite (is_tc_sim TEscape _ _ Hc). exact Ee. }
+  intros [n1 a1] s1 [n2 a2] s2 (Hn & Ha & Hfa) Hs. cbn [fst snd] in Hn, Ha, Hfa. subst n2.
+  cbn beta iota.
+  destruct (str_eqb n1 s_item).
+  { destruct (mode_is_math m); [reflexivity|].
+    eapply rrel_bind; [apply IHi; [constructor | exact Hs]|].
+    intros b1 u1 b2 u2 Hb Hu. cbn beta iota. simpl. split; [|exact Hu]. constructor; assumption. }
+  destruct (str_eqb n1 s_begin && negb (mode_is_special m)) eqn:Eb.
+  2: { simpl. split; [|exact Hs]. constructor; [exact Ha | constructor]. }
+  apply andb_true_iff in Eb. destruct Eb as [Eb _].
+  assert (Hfa' : fa a1 = fa a2) by (apply Hfa; [lia | rewrite Eb; reflexivity]).
+  clear Hfa. rename Hfa' into Hfa.
+  destruct Ha as [|x1 x2 y1 y2 Hx Hy]; [reflexivity|].
+  simpl in Hfa. injection Hfa as Hfa. rewrite Hfa.
+  destruct (mem_str (strip (arg_string x2)) skip) eqn:Em.
+  - apply read_skip_env_sim; [eapply skip_ok_mem; eassumption | exact Hy | exact Hs].
+  - apply IHv; try assumption. constructor.
+Qed.
+
+(* ------------------------------------------------ public (res_sim) forms *)
+
+Lemma rrel_res_sim {A} (R : A -> A -> list token -> Prop) (R' : A -> A -> Prop) r1 r2 :
+  rrel R r1 r2 -> (forall v1 v2 s, R v1 v2 s -> R' v1 v2) -> res_sim R' r1 r2.
+Proof.
+  destruct r1 as [[v1 s1]|e1], r2 as [[v2 s2]|e2]; simpl; try tauto.
+  intros [HR Hg] Hk. split; [eapply Hk; exact HR | apply gp_sim; exact Hg].
+Qed.
+
+Definition name_args_sim (v1 v2 : str * list expr) : Prop :=
+  fst v1 = fst v2 /\ Forall2 expr_sim (snd v1) (snd v2).
+Definition args_n_sim (v1 v2 : list expr * Z) : Prop :=
+  Forall2 expr_sim (fst v1) (fst v2) /\ snd v1 = snd v2.
+
+(* the structural part of ok_side depends only on what tok_sim preserves *)
+Lemma spacer_sim l1 l2 : Forall2 tok_sim l1 l2 ->
+  Forall2 tok_sim (snd (read_spacer l1)) (snd (read_spacer l2)).
+Proof.
+  intro H. destruct H as [|t1 t2 r1 r2 Ht Hr]; [constructor|].
+  unfold read_spacer. rewrite (is_tc_sim _ _ _ Ht).
+  destruct (is_tc TMergedSpacer t2); simpl; [exact Hr | constructor; assumption].
+Qed.
+
+Lemma flat_sim k l1 l2 : Forall2 tok_sim l1 l2 -> flat k l1 = flat k l2.
+Proof.
+  induction 1 as [|t1 t2 r1 r2 Ht Hr IH]; [reflexivity|]. simpl.
+  rewrite (is_group_end_sim k _ _ Ht), (is_leaf_sim _ _ Ht), IH. reflexivity.
+Qed.
+
+Lemma name_flat_sim l1 l2 : Forall2 tok_sim l1 l2 -> name_flat l1 = name_flat l2.
+Proof.
+  intro H. apply spacer_sim in H. unfold name_flat.
+  destruct H as [|c1 c2 r1 r2 Hc Hr]; [reflexivity|].
+  unfold flat_open. destruct Hc as (Hcat & _). rewrite Hcat.
+  destruct (group_kind_of_begin (tcat c2)); [rewrite (flat_sim _ _ _ Hr)|]; reflexivity.
+Qed.
+
+Lemma cmd_ok_sim l1 l2 : Forall2 tok_sim l1 l2 -> cmd_ok l1 = cmd_ok l2.
+Proof.
+  intro H. destruct H as [|n1 n2 r1 r2 Hn Hr]; [reflexivity|]. unfold cmd_ok.
+  rewrite <- (is_tc_sim TComment _ _ Hn). destruct (is_tc TComment n1) eqn:Ec; [reflexivity|].
+  rewrite (text_of_noncomment _ _ Hn Ec), (name_flat_sim _ _ Hr). reflexivity.
+Qed.
+
+Lemma ok_struct_sim l1 l2 : Forall2 tok_sim l1 l2 -> ok_struct l1 = ok_struct l2.
+Proof.
+  induction 1 as [|t1 t2 r1 r2 Ht Hr IH]; [reflexivity|]. simpl.
+  rewrite (is_tc_sim _ _ _ Ht), (cmd_ok_sim _ _ Hr), IH. reflexivity.
+Qed.
+
+Lemma gp_of l1 l2 :
+  Forall2 tok_sim l1 l2 -> ok_side l1 = true -> forallb comment_wf l2 = true -> gp l1 l2.
+Proof.
+  intros H O1 W2. split; [exact H|]. split; [exact O1|].
+  unfold ok_side in *. rewrite <- (ok_struct_sim _ _ H), W2.
+  apply andb_true_iff in O1. destruct O1 as [-> _]. reflexivity.
+Qed.
+
+(* every reader function, every fuel *)
+Theorem reader_parametric_all f :
+  (forall skip strict m l1 l2, skip_ok skip = true -> gp l1 l2 ->
+     res_sim expr_sim (read_expr f skip strict m l1) (read_expr f skip strict m l2)) /\
+  (forall acc1 acc2 l1 l2, Forall2 expr_sim acc1 acc2 -> gp l1 l2 ->
+     res_sim (Forall2 expr_sim) (read_item_loop f acc1 l1) (read_item_loop f acc2 l2)) /\
+  (forall k pos strict acc1 acc2 l1 l2, Forall2 expr_sim acc1 acc2 -> gp l1 l2 ->
+     res_sim expr_sim (read_math_loop f k pos strict acc1 l1) (read_math_loop f k pos strict acc2 l2)) /\
+  (forall name args1 args2 pos skip strict m acc1 acc2 l1 l2,
+     skip_ok skip = true -> Forall2 expr_sim args1 args2 -> Forall2 expr_sim acc1 acc2 -> gp l1 l2 ->
+     res_sim expr_sim (read_env_loop f name args1 pos skip strict m acc1 l1)
+                      (read_env_loop f name args2 pos skip strict m acc2 l2)) /\
+  (forall nreq nopt sk strict m l1 l2, gp l1 l2 -> cmd_ok (skipn sk l1) = true ->
+     res_sim name_args_sim (read_command f nreq nopt sk strict m l1)
+                           (read_command f nreq nopt sk strict m l2)) /\
+  (forall nreq nopt strict m l1 l2, gp l1 l2 ->
+     res_sim (Forall2 expr_sim) (read_args f nreq nopt strict m l1) (read_args f nreq nopt strict m l2)) /\
+  (forall acc1 acc2 nopt strict m l1 l2, Forall2 expr_sim acc1 acc2 -> gp l1 l2 ->
+     res_sim args_n_sim (read_arg_optional f acc1 nopt strict m l1)
+                        (read_arg_optional f acc2 nopt strict m l2)) /\
+  (forall acc1 acc2 nreq strict m l1 l2, Forall2 expr_sim acc1 acc2 -> gp l1 l2 ->
+     res_sim args_n_sim (read_arg_required f acc1 nreq strict m l1)
+                        (read_arg_required f acc2 nreq strict m l2)) /\
+  (forall c1 c2 strict m l1 l2, tok_sim c1 c2 -> gp l1 l2 ->
+     res_sim expr_sim (read_arg f c1 strict m l1) (read_arg f c2 strict m l2)) /\
+  (forall k pos strict m acc1 acc2 l1 l2, Forall2 expr_sim acc1 acc2 -> gp l1 l2 ->
+     res_sim expr_sim (read_arg_loop f k pos strict m acc1 l1) (read_arg_loop f k pos strict m acc2 l2)).
+Proof.
+  destruct (P_all_holds f) as (He & Hi & Hm & Hv & Hc & Ha & Ho & Hr & Hg & Hl).
+  repeat match goal with |- _ /\ _ => split end; intros.
+  - eapply rrel_res_sim; [apply He; assumption|]. intros v1 v2 s [HH _]; exact HH.
+  - eapply rrel_res_sim; [apply Hi; assumption|]. intros v1 v2 s HH; exact HH.
+  - eapply rrel_res_sim; [apply Hm; assumption|]. intros v1 v2 s HH; exact HH.
+  - eapply rrel_res_sim; [apply Hv; assumption|]. intros v1 v2 s HH; exact HH.
+  - eapply rrel_res_sim; [apply Hc; assumption|]. intros v1 v2 s (HH1 & HH2 & _); split; assumption.
+  - eapply rrel_res_sim; [apply Ha; assumption|]. intros v1 v2 s [HH _]; exact HH.
+  - eapply rrel_res_sim; [apply Ho; assumption|]. intros v1 v2 s (HH1 & HH2 & _); split; assumption.
+  - eapply rrel_res_sim; [apply Hr; assumption|]. intros v1 v2 s (HH1 & HH2 & _); split; assumption.
+  - eapply rrel_res_sim; [apply Hg; assumption|]. intros v1 v2 s [HH _]; exact HH.
+  - eapply rrel_res_sim; [apply Hl; assumption|]. intros v1 v2 s [HH _]; exact HH.
+Qed.
+
+(* the headline form: read_expr *)
+Theorem reader_parametric f skip strict m toks1 toks2 :
+  Forall2 tok_sim toks1 toks2 ->
+  ok_side toks1 = true -> forallb comment_wf toks2 = true -> skip_ok skip = true ->
+  res_sim expr_sim (read_expr f skip strict m toks1) (read_expr f skip strict m toks2).
+Proof.
+  intros H O1 W2 Hs. apply (proj1 (reader_parametric_all f)); [exact Hs | apply gp_of; assumption].
+Qed.
+
+Lemma read_tex_loop_par efuel skip strict fuel : forall acc1 acc2 l1 l2,
+  skip_ok skip = true -> Forall2 expr_sim acc1 acc2 -> gp l1 l2 ->
+  res_sim0 (Forall2 expr_sim) (read_tex_loop fuel efuel skip strict acc1 l1)
+                              (read_tex_loop fuel efuel skip strict acc2 l2).
+Proof.
+  induction fuel as [|fu IH]; intros acc1 acc2 l1 l2 Hs Hacc Hgp; [reflexivity|]. simpl.
+  destruct (gp_inv _ _ Hgp) as [[-> ->]|(t1 & r1 & t2 & r2 & -> & -> & Ht & Hr)]; [exact Hacc|].
+  pose proof (proj1 (P_all_holds efuel) skip strict MNonMath _ _ Hs Hgp) as H.
+  destruct (read_expr efuel skip strict MNonMath (t1 :: r1)) as [[e1 s1]|x1];
+    destruct (read_expr efuel skip strict MNonMath (t2 :: r2)) as [[e2 s2]|x2];
+    simpl in H |- *; try contradiction; [|exact H].
+  destruct H as [[He _] Hg]. apply IH; [exact Hs | apply F2_snoc; assumption | exact Hg].
+Qed.
+
+Lemma skip_env_names_ok : skip_ok Tables.skip_env_names = true.
+Proof. vm_compute. reflexivity. Qed.
+
+Lemma skip_ok_app a b : skip_ok (a ++ b) = skip_ok a && skip_ok b.
+Proof. unfold skip_ok. apply forallb_app. Qed.
+
+Theorem parse_tokens_par toks1 toks2 strict user_skip :
+  Forall2 tok_sim toks1 toks2 ->
+  ok_side toks1 = true -> forallb comment_wf toks2 = true -> skip_ok user_skip = true ->
+  res_sim0 expr_sim (parse_tokens toks1 strict user_skip) (parse_tokens toks2 strict user_skip).
+Proof.
+  intros H O1 W2 Hs. pose proof (gp_of _ _ H O1 W2) as Hgp.
+  unfold parse_tokens, fuel_for. rewrite (gp_length _ _ Hgp).
+  assert (Hsk : skip_ok (Tables.skip_env_names ++ user_skip) = true).
+  { rewrite skip_ok_app, skip_env_names_ok, Hs. reflexivity. }
+  pose proof (read_tex_loop_par (4 * length toks2 + 8) _ strict (S (length toks2)) [] [] _ _ Hsk
+                (Forall2_nil _) Hgp) as HR.
+  destruct (read_tex_loop _ _ _ _ _ toks1) as [b1|x1];
+    destruct (read_tex_loop _ _ _ _ _ toks2) as [b2|x2]; simpl in HR |- *; try contradiction.
+  - constructor. exact HR.
+  - exact HR.
+Qed.
+
+(* ------------------------------------ a Comment token is an inert leaf *)
+
+Lemma comment_cats :
+  math_kind_of_begin TComment = None /\ group_kind_of_begin TComment = None /\
+  (forall k, group_tok_end k <> Some TComment) /\ (forall k, math_tok_end k <> Some TComment).
+Proof.
+  split; [vm_compute; reflexivity|]. split; [vm_compute; reflexivity|].
+  split; intro k; destruct k; vm_compute; discriminate.
+Qed.
+
+Lemma is_tc_of_cat k t c : tcat t = c -> is_tc k t = tc_beq c k.
+Proof. intros <-. reflexivity. Qed.
+
+Theorem comment_cannot_close t :
+  tcat t = TComment ->
+  (forall k, is_group_end k t = false) /\ (forall k, is_math_end k t = false) /\
+  is_tc TEscape t = false /\ is_tc TGroupEnd t = false /\
+  is_tc TGroupBegin t = false /\ is_tc TBracketBegin t = false /\ is_tc TMergedSpacer t = false /\
+  math_kind_of_begin (tcat t) = None /\ group_kind_of_begin (tcat t) = None.
+Proof.
+  intro H. destruct comment_cats as (Hm & Hg & Hge & Hme).
+  split; [|split].
+  - intro k. unfold is_group_end. specialize (Hge k). destruct (group_tok_end k) as [e|]; [|reflexivity].
+    rewrite (is_tc_of_cat _ _ _ H). destruct e; try reflexivity. congruence.
+  - intro k. unfold is_math_end. specialize (Hme k). destruct (math_tok_end k) as [e|]; [|reflexivity].
+    rewrite (is_tc_of_cat _ _ _ H). destruct e; try reflexivity. congruence.
+  - rewrite !(is_tc_of_cat _ _ _ H), H. repeat split; try reflexivity; assumption.
+Qed.
+
+Theorem comment_is_leaf f skip strict m t rest :
+  tcat t = TComment -> read_expr (S f) skip strict m (t :: rest) = Ok (EText t, rest).
+Proof.
+  intro H. destruct (comment_cannot_close t H) as (_ & _ & He & _ & Hg & _ & _ & Hm & _).
+  simpl. rewrite Hm, He, Hg. reflexivity.
+Qed.
+
+(* in each of the four loops a Comment token is appended as one leaf and the
+   loop goes on: it closes nothing *)
+Theorem comment_inert_arg_loop f k pos strict m acc t rest :
+  tcat t = TComment ->
+  read_arg_loop (S (S f)) k pos strict m acc (t :: rest) =
+  read_arg_loop (S f) k pos strict m (acc ++ [EText t]) rest.
+Proof.
+  intro H. destruct (comment_cannot_close t H) as (Hge & _).
+  remember (S f) as g eqn:Eg. simpl. rewrite Hge. subst g.
+  rewrite (comment_is_leaf _ _ _ _ _ _ H). reflexivity.
+Qed.
+
+Theorem comment_inert_math_loop f k pos strict acc t rest :
+  tcat t = TComment ->
+  read_math_loop (S (S f)) k pos strict acc (t :: rest) =
+  read_math_loop (S f) k pos strict (acc ++ [EText t]) rest.
+Proof.
+  intro H. destruct (comment_cannot_close t H) as (_ & Hme & _).
+  remember (S f) as g eqn:Eg. simpl. rewrite Hme. subst g.
+  rewrite (comment_is_leaf _ _ _ _ _ _ H). reflexivity.
+Qed.
+
+Theorem comment_inert_env_loop f name args pos skip strict m acc t rest :
+  tcat t = TComment ->
+  read_env_loop (S (S f)) name args pos skip strict m acc (t :: rest) =
+  read_env_loop (S f) name args pos skip strict m (acc ++ [EText t]) rest.
+Proof.
+  intro H. destruct (comment_cannot_close t H) as (_ & _ & He & _).
+  remember (S f) as g eqn:Eg. simpl. rewrite He. subst g.
+  rewrite (comment_is_leaf _ _ _ _ _ _ H). reflexivity.
+Qed.
+
+Theorem comment_inert_item_loop f acc t rest :
+  tcat t = TComment ->
+  read_item_loop (S (S f)) acc (t :: rest) = read_item_loop (S f) (acc ++ [EText t]) rest.
+Proof.
+  intro H. destruct (comment_cannot_close t H) as (_ & _ & He & Hg & _).
+  remember (S f) as g eqn:Eg. simpl. rewrite He, Hg. subst g.
+  rewrite (comment_is_leaf _ _ _ _ _ _ H). reflexivity.
+Qed.
+
+(* --------------------------------------------- boolean checks for examples *)
+
+Definition tok_simb (t1 t2 : token) : bool :=
+  tc_beq (tcat t1) (tcat t2) && Z.eqb (tpos t1) (tpos t2) &&
+  (is_tc TComment t1 || str_eqb (ttext t1) (ttext t2)).
+
+Lemma tok_simb_ok t1 t2 : tok_simb t1 t2 = true -> tok_sim t1 t2.
+Proof.
+  unfold tok_simb. intro H. apply andb_true_iff in H. destruct H as [H Ht].
+  apply andb_true_iff in H. destruct H as [Hc Hp].
+  apply tc_eqb_eq in Hc. apply Z.eqb_eq in Hp. split; [exact Hc|]. split; [exact Hp|].
+  intro Hn. apply orb_true_iff in Ht. destruct Ht as [Ht|Ht].
+  - unfold is_tc in Ht. apply tc_eqb_eq in Ht. contradiction.
+  - apply str_eqb_eq. exact Ht.
+Qed.
+
+Fixpoint toks_simb (l1 l2 : list token) : bool :=
+  match l1, l2 with
+  | [], [] => true
+  | a :: l, b :: l' => tok_simb a b && toks_simb l l'
+  | _, _ => false
+  end.
+
+Lemma toks_simb_ok l1 l2 : toks_simb l1 l2 = true -> Forall2 tok_sim l1 l2.
+Proof.
+  revert l2; induction l1 as [|a l IH]; destruct l2 as [|b l']; simpl; intro H;
+    try discriminate; [constructor|].
+  apply andb_true_iff in H. destruct H as [H1 H2].
+  constructor; [apply tok_simb_ok; exact H1 | apply IH; exact H2].
+Qed.
+
+(* ------------------------------------------------ examples and witnesses *)
+
+Lemma expr_sim_root_inv b1 b2 : expr_sim (ERoot b1) (ERoot b2) -> Forall2 expr_sim b1 b2.
+Proof. intro H. inversion H; subst. assumption. Qed.
+
+Lemma expr_sim_cmd_name n1 a1 b1 p1 n2 a2 b2 p2 :
+  expr_sim (ECmd n1 a1 b1 p1) (ECmd n2 a2 b2 p2) -> n1 = n2.
+Proof. intro H. inversion H; subst. reflexivity. Qed.
+
+Lemma F2_length {A} (R : A -> A -> Prop) l1 l2 : Forall2 R l1 l2 -> length l1 = length l2.
+Proof. induction 1; simpl; congruence. Qed.
+
+(* \a{x %}{$⏎ y}   and   \a{x %zzz⏎ y} *)
+Definition exA : str := [92;97;123;120;32;37;125;123;36;10;32;121;125]%N.
+Definition exB : str := [92;97;123;120;32;37;122;122;122;10;32;121;125]%N.
+(* \begin{itemize}%c⏎\item a%x⏎\end{itemize}   and the same with %d, %y *)
+Definition exC : str :=
+  [92;98;101;103;105;110;123;105;116;101;109;105;122;101;125;37;99;10;
+   92;105;116;101;109;32;97;37;120;10;
+   92;101;110;100;123;105;116;101;109;105;122;101;125]%N.
+Definition exD : str :=
+  [92;98;101;103;105;110;123;105;116;101;109;105;122;101;125;37;100;10;
+   92;105;116;101;109;32;97;37;121;10;
+   92;101;110;100;123;105;116;101;109;105;122;101;125]%N.
+(* \begin{verbatim}a%x⏎\end{verbatim}b   and the same with %y *)
+Definition exE : str :=
+  [92;98;101;103;105;110;123;118;101;114;98;97;116;105;109;125;97;37;120;10;
+   92;101;110;100;123;118;101;114;98;97;116;105;109;125;98]%N.
+Definition exF : str :=
+  [92;98;101;103;105;110;123;118;101;114;98;97;116;105;109;125;97;37;121;10;
+   92;101;110;100;123;118;101;114;98;97;116;105;109;125;98]%N.
+
+Definition example_ok (s1 s2 : str) (strict : bool) : Prop :=
+  let l1 := fst (tokens_of_string s1) in
+  let l2 := fst (tokens_of_string s2) in
+  Forall2 tok_sim l1 l2 /\ ok_side l1 = true /\ forallb comment_wf l2 = true /\
+  exists t1 t2, parse_tokens l1 strict [] = Ok t1 /\ parse_tokens l2 strict [] = Ok t2 /\
+                t1 <> t2 /\ expr_sim t1 t2.
+
+Lemma example_ok_from s1 s2 strict t1 t2 :
+  toks_simb (fst (tokens_of_string s1)) (fst (tokens_of_string s2)) = true ->
+  ok_side (fst (tokens_of_string s1)) = true ->
+  forallb comment_wf (fst (tokens_of_string s2)) = true ->
+  parse_tokens (fst (tokens_of_string s1)) strict [] = Ok t1 ->
+  parse_tokens (fst (tokens_of_string s2)) strict [] = Ok t2 ->
+  t1 <> t2 -> example_ok s1 s2 strict.
+Proof.
+  intros H1 H2 H3 E1 E2 Hne. apply toks_simb_ok in H1. unfold example_ok.
+  split; [exact H1|]. split; [exact H2|]. split; [exact H3|].
+  exists t1, t2. split; [exact E1|]. split; [exact E2|]. split; [exact Hne|].
+  pose proof (parse_tokens_par _ _ strict [] H1 H2 H3 eq_refl) as HP.
+  rewrite E1, E2 in HP. exact HP.
+Qed.
+
+Ltac example_tac :=
+  eapply example_ok_from;
+  [vm_compute; reflexivity | vm_compute; reflexivity | vm_compute; reflexivity
+   | vm_compute; reflexivity | vm_compute; reflexivity | let E := fresh in intro E; discriminate E].
+
+Example ex_group : example_ok exA exB true.
+Proof. example_tac. Qed.
+Example ex_item_env : example_ok exC exD true.
+Proof. example_tac. Qed.
+Example ex_verbatim : example_ok exE exF true.
+Proof. example_tac. Qed.
+Example ex_group_tolerant : example_ok exA exB false.
+Proof. example_tac. Qed.
+
+(* Without condition (4) the statement is false.  ok_side_weak is ok_side
+   minus the name-group clause. *)
+Definition cmd_ok_weak (l : list token) : bool :=
+  match l with n :: _ => negb (is_tc TComment n) | [] => true end.
+Fixpoint ok_struct_weak (toks : list token) : bool :=
+  match toks with
+  | [] => true
+  | e :: r => (if is_tc TEscape e then cmd_ok_weak r else true) && ok_struct_weak r
+  end.
+Definition ok_side_weak (toks : list token) : bool :=
+  ok_struct_weak toks && forallb comment_wf toks.
+
+(* \begin{a%x⏎b}c\end{a%x⏎b}   and   \begin{a%y⏎b}c\end{a%x⏎b} *)
+Definition refW1 : str :=
+  [92;98;101;103;105;110;123;97;37;120;10;98;125;99;92;101;110;100;123;97;37;120;10;98;125]%N.
+Definition refW2 : str :=
+  [92;98;101;103;105;110;123;97;37;121;10;98;125;99;92;101;110;100;123;97;37;120;10;98;125]%N.
+
+Theorem unrestricted_refuted :
+  exists s1 s2 : str,
+    let l1 := fst (tokens_of_string s1) in
+    let l2 := fst (tokens_of_string s2) in
+    Forall2 tok_sim l1 l2 /\ ok_side_weak l1 = true /\ ok_side_weak l2 = true /\
+    (exists t, parse_tokens l1 true [] = Ok t) /\ parse_tokens l2 true [] = Err EOFError /\
+    ~ res_sim0 expr_sim (parse_tokens l1 true []) (parse_tokens l2 true []) /\
+    ~ res_sim0 expr_sim (parse_tokens l1 false []) (parse_tokens l2 false []).
+Proof.
+  exists refW1, refW2. intros l1 l2.
+  split; [apply toks_simb_ok; vm_compute; reflexivity|].
+  split; [vm_compute; reflexivity|]. split; [vm_compute; reflexivity|].
+  split; [eexists; vm_compute; reflexivity|]. split; [vm_compute; reflexivity|].
+  split.
+  - vm_compute. intro H; exact H.
+  - intro H. vm_compute in H. apply expr_sim_root_inv, F2_length in H. discriminate H.
+Qed.
+
+(* the other clauses of the side condition are needed too (token-level
+   witnesses; the first two are not tokenizer outputs) *)
+
+(* (1) a Comment token directly after an Escape becomes the command name *)
+Theorem escape_comment_needed :
+  let l1 := [mkt [92%N] 0 TEscape; mkt [37; 97]%N 1 TComment] in
+  let l2 := [mkt [92%N] 0 TEscape; mkt [37; 98]%N 1 TComment] in
+  Forall2 tok_sim l1 l2 /\ forallb comment_wf l1 = true /\ forallb comment_wf l2 = true /\
+  ~ res_sim0 expr_sim (parse_tokens l1 true []) (parse_tokens l2 true []).
+Proof.
+  intros l1 l2. split; [apply toks_simb_ok; vm_compute; reflexivity|].
+  split; [vm_compute; reflexivity|]. split; [vm_compute; reflexivity|].
+  intro H. vm_compute in H. apply expr_sim_root_inv in H. inversion H as [|x y l l' Hx Hl]; subst.
+  apply expr_sim_cmd_name in Hx. discriminate Hx.
+Qed.
+
+(* (3a) a skip name containing '%': the match of \end{a%b} depends on a payload *)
+Theorem skip_names_needed :
+  let pre := [mkt [92%N] 0 TEscape; mkt s_begin 1 TCommandName; mkt [123%N] 6 TGroupBegin;
+              mkt [97; 37; 98]%N 7 TText; mkt [125%N] 10 TGroupEnd;
+              mkt [92; 101; 110; 100; 123; 97]%N 11 TText] in
+  let l1 := pre ++ [mkt [37; 98; 125]%N 17 TComment] in
+  let l2 := pre ++ [mkt [37; 99; 125]%N 17 TComment] in
+  Forall2 tok_sim l1 l2 /\ ok_side l1 = true /\ ok_side l2 = true /\
+  ~ res_sim0 expr_sim (parse_tokens l1 true [[97; 37; 98]%N]) (parse_tokens l2 true [[97; 37; 98]%N]).
+Proof.
+  intros pre l1 l2. split; [apply toks_simb_ok; vm_compute; reflexivity|].
+  split; [vm_compute; reflexivity|]. split; [vm_compute; reflexivity|].
+  vm_compute. intro H; exact H.
+Qed.
+
+(* (3b) a Comment token that does not begin with '%' *)
+Theorem comment_wf_needed :
+  let pre := [mkt [92%N] 0 TEscape; mkt s_begin 1 TCommandName; mkt [123%N] 6 TGroupBegin;
+              mkt [118%N] 7 TText; mkt [125%N] 8 TGroupEnd] in
+  let l1 := pre ++ [mkt [37; 101; 110; 100; 123; 118; 125]%N 9 TComment] in
+  let l2 := pre ++ [mkt [92; 101; 110; 100; 123; 118; 125]%N 9 TComment] in
+  Forall2 tok_sim l1 l2 /\ ok_side l1 = true /\ ok_struct l2 = true /\
+  ~ res_sim0 expr_sim (parse_tokens l1 true [[118%N]]) (parse_tokens l2 true [[118%N]]).
+Proof.
+  intros pre l1 l2. split; [apply toks_simb_ok; vm_compute; reflexivity|].
+  split; [vm_compute; reflexivity|]. split; [vm_compute; reflexivity|].
+  vm_compute. intro H; exact H.
 Qed.
